@@ -235,7 +235,12 @@ class Glue:
             tb += f"        \"{bname}\" => Some(vec![" + ", ".join(
                 f"(\"{n}\", {path}::{n}.bits() as u64)" for n, _ in tables["bitflags"].get(bname, [])) + "]),\n"
         tb += "        _ => None,\n    }\n}\n"
-        return hdr + "\n".join(self.out) + "\n" + dec + "\n" + enc + "\n" + req + "\n" + resp + "\n" + tb
+        ad = ""
+        for fl in ("MC", "GA"):
+            k = sj["roles"].get("adExt" + fl)
+            if k:
+                ad += f"pub type AdExt{fl} = {rust_path(k)};\npub fn build_adext_{fl.lower()}(v: &V) -> AdExt{fl} {{ build_{mangle(k)}(v) }}\n"
+        return hdr + "\n".join(self.out) + "\n" + ad + "\n" + dec + "\n" + enc + "\n" + req + "\n" + resp + "\n" + tb
 
 
 def main():
